@@ -281,11 +281,12 @@ def protocol(chk, prog, cls, methods):
                     bound[k.arg] = k.value
             # first parameter: previous attitude Q[t-1]
             q_arg = bound.get(params[0])
-            if q_arg is None or ast.unparse(q_arg).replace(" ", "") not in ("Q[%s-1]" % t,):
-                problems.append("previous attitude argument is `%s`, expected Q[%s-1]" % (ast.unparse(q_arg) if q_arg is not None else None, t))
             tgt = s.targets[0]
-            if ast.unparse(tgt).replace(" ", "") != "Q[%s]" % t:
-                problems.append("result stored in `%s`, expected Q[%s]" % (ast.unparse(tgt), t))
+            out_name = ast.unparse(tgt.value) if isinstance(tgt, ast.Subscript) else None
+            if out_name is None or ast.unparse(tgt).replace(" ", "") != "%s[%s]" % (out_name, t):
+                problems.append("result stored in `%s`, expected <output>[%s]" % (ast.unparse(tgt), t))
+            if q_arg is None or ast.unparse(q_arg).replace(" ", "") != "%s[%s-1]" % (out_name, t):
+                problems.append("previous attitude argument is `%s`, expected %s[%s-1]" % (ast.unparse(q_arg) if q_arg is not None else None, out_name, t))
             for p in params[1:]:
                 a = bound.get(p)
                 if p in DATA_PARAMS:
